@@ -160,7 +160,7 @@ func findSplitLoop(fn *ssa.Function) *splitLoop {
 		if !ok || !eng.InLoop(call.Block()) {
 			return
 		}
-		g := call.Call.StaticCallee()
+		g := eng.StaticCallee(call)
 		if g == nil || seen[g] || len(g.Blocks) == 0 || len(g.Params) == 0 || len(call.Call.Args) == 0 || call.Call.Args[0] != l.base {
 			return
 		}
@@ -284,7 +284,7 @@ func fieldStores(base ssa.Value, f int, e *symEnv) []symStore {
 				out = append(out, symStore{x, e})
 			}
 		case *ssa.Call:
-			g := x.Call.StaticCallee()
+			g := eng.StaticCallee(x)
 			if g == nil || len(g.Blocks) == 0 || len(g.Params) == 0 || len(x.Call.Args) == 0 || x.Call.Args[0] != base {
 				return
 			}
@@ -360,7 +360,7 @@ func (c *symCtx) alts(v ssa.Value, e *symEnv, depth int) []*eng.Poly {
 		return out
 	}
 	results := func(call *ssa.Call, idx int) []*eng.Poly {
-		g := call.Call.StaticCallee()
+		g := eng.StaticCallee(call)
 		if g == nil || len(g.Blocks) == 0 || !eng.InModule(g) {
 			return nil
 		}
@@ -725,7 +725,7 @@ func ruleTextCollectorSkipsHidden(c *eng.Ctx) {
 		}
 		descends := func(in ssa.Instruction) bool {
 			ci, ok := in.(ssa.CallInstruction)
-			if !ok || ci.Common().StaticCallee() != f {
+			if !ok || eng.StaticCallee(ci) != f {
 				return false
 			}
 			for _, a := range ci.Common().Args {
@@ -1036,7 +1036,7 @@ func ruleCharDataUnconditional(c *eng.Ctx) {
 			}
 			// one level down: a helper that receives the text
 			for _, ci := range eng.Calls(fn, false, func(string, ssa.CallInstruction) bool { return true }) {
-				g := ci.Common().StaticCallee()
+				g := eng.StaticCallee(ci)
 				if g == nil || g.Blocks == nil || g.Pkg != fn.Pkg {
 					continue
 				}
@@ -1602,12 +1602,12 @@ func isFileInt(v ssa.Value, fns map[*ssa.Function]bool) bool {
 				return true
 			}
 		case *ssa.Call:
-			if g := x.Call.StaticCallee(); g != nil && fns[g] {
+			if g := eng.StaticCallee(x); g != nil && fns[g] {
 				return true
 			}
 		case *ssa.Extract:
 			if call, ok := x.Tuple.(*ssa.Call); ok && x.Index == 0 {
-				if g := call.Call.StaticCallee(); g != nil && fns[g] {
+				if g := eng.StaticCallee(call); g != nil && fns[g] {
 					return true
 				}
 			}
